@@ -55,6 +55,7 @@ type caseJS struct {
 	GenSeed uint64   `json:"gen_seed,omitempty"` // ... PRNG seed (fill: the byte)
 	Kind    string   `json:"kind,omitempty"`     // reuse stream: which decoder
 	Seq     [][]byte `json:"seq,omitempty"`      // reuse stream: inputs decoded one after another into the same value
+	Ops     []int    `json:"ops,omitempty"`      // reuse stream: per step 0 = decode the input, 1 = Encode a value with the input as payload
 	Why     string   `json:"why,omitempty"`
 }
 
@@ -568,6 +569,20 @@ type robs struct {
 	Data   []byte
 	Msgs   []msgJS
 	Rest   int
+	// live are the byte slices of the decoded value itself (same backing arrays), snap their
+	// content right after the decode; aliasInput: they changed when the input buffer was overwritten
+	live, snap [][]byte
+	aliasInput bool
+}
+
+// intact reports whether the decoded value still holds what it held right after its decode.
+func (a robs) intact() bool {
+	for i := range a.live {
+		if !bytes.Equal(a.live[i], a.snap[i]) {
+			return false
+		}
+	}
+	return true
 }
 
 func (a robs) equal(b robs) bool {
@@ -597,7 +612,8 @@ type reuseTarget struct {
 }
 
 func decodeInto(d bin.Decoder, in []byte, read func() robs) robs {
-	b := &bin.Buffer{Buf: append([]byte{}, in...)}
+	orig := append([]byte{}, in...)
+	b := &bin.Buffer{Buf: orig}
 	var err error
 	p, _ := hx.Recover(func() { err = d.Decode(b) })
 	if p {
@@ -606,9 +622,27 @@ func decodeInto(d bin.Decoder, in []byte, read func() robs) robs {
 	if st := errCode(err); st != 0 {
 		return robs{Status: st}
 	}
-	o := read()
+	o := read() // Data and message bodies are the decoded value's own slices here
 	o.Rest = len(b.Buf)
-	o.Data = append([]byte{}, o.Data...)
+	o.live = append(o.live, o.Data)
+	for _, m := range o.Msgs {
+		o.live = append(o.live, m.Body)
+	}
+	for _, l := range o.live {
+		o.snap = append(o.snap, append([]byte{}, l...))
+	}
+	// a decoded value must own its bytes: overwrite the input buffer and look again
+	for i := range orig {
+		orig[i] = 0xEE
+	}
+	o.aliasInput = !o.intact()
+	o.Data = append([]byte{}, o.snap[0]...)
+	ms := make([]msgJS, len(o.Msgs))
+	for i, m := range o.Msgs {
+		m.Body = append([]byte{}, o.snap[1+i]...)
+		ms[i] = m
+	}
+	o.Msgs = ms
 	return o
 }
 
@@ -649,7 +683,7 @@ func newReuseTarget(kind string) reuseTarget {
 				u = long
 			}
 			return decodeInto(u, in, func() robs {
-				return robs{Msgs: []msgJS{{u.ID, u.SeqNo, u.Bytes, append([]byte{}, u.Body...)}}}
+				return robs{Msgs: []msgJS{{u.ID, u.SeqNo, u.Bytes, u.Body}}}
 			})
 		}, func() ([]byte, []msgJS) {
 			return nil, []msgJS{{long.ID, long.SeqNo, long.Bytes, append([]byte{}, long.Body...)}}
@@ -668,7 +702,7 @@ func newReuseTarget(kind string) reuseTarget {
 			if dirty {
 				u = long
 			}
-			return decodeInto(u, in, func() robs { return robs{Msgs: cp(u)} })
+			return decodeInto(u, in, func() robs { return robs{Msgs: toMsgs(u.Messages)} })
 		}, func() ([]byte, []msgJS) { return nil, cp(long) }}
 	}
 }
@@ -676,14 +710,48 @@ func newReuseTarget(kind string) reuseTarget {
 // reuseSeq decodes the inputs one after another into ONE long-lived value and, each of
 // them, into a fresh value; both must report the same thing. Returns false after the first
 // violation (the rest of the sequence would only repeat it).
-func reuseSeq(kind string, seq [][]byte, emit bool) {
+func reuseSeq(kind string, seq [][]byte, emit bool, ops ...int) {
 	t := newReuseTarget(kind)
+	var kept []robs // earlier fresh values, still alive while later calls run
+	audit := func(i int, what string, js caseJS) bool {
+		for k, o := range kept {
+			if !o.intact() {
+				c.Violate(kind+"-earlier-value-overwritten", fmt.Sprintf("the %s value decoded at step %d changed when step %d (%s) ran: decoded values must own their memory (pooled or shared buffer?)", kind, k+1, i+1, what), -1, 0, js)
+				return false
+			}
+		}
+		return true
+	}
 	for i, in := range seq {
 		c.Obs.Evaluations++
+		js := caseJS{Mode: 8, Kind: kind, Seq: seq[:i+1], Why: "reuse"}
+		if len(ops) > 0 {
+			js.Ops = ops[:i+1]
+		}
+		if i < len(ops) && ops[i] == 1 { // an Encode between the decodes
+			c.Count("reuse:" + kind + ":encode-step")
+			if p, _ := hx.Recover(func() { encodePayload(kind, in) }); p {
+				c.Violate(kind+"-encode-panic", fmt.Sprintf("%s.Encode of a %d-byte payload panicked", kind, len(in)), -1, 0, js)
+				return
+			}
+			if !audit(i, "Encode", js) {
+				return
+			}
+			continue
+		}
 		oldData, oldMsgs := t.old()
 		fresh := t.dec(in, false)
 		dirty := t.dec(in, true)
-		js := caseJS{Mode: 8, Kind: kind, Seq: seq[:i+1], Why: "reuse"}
+		if fresh.aliasInput || dirty.aliasInput {
+			c.Violate(kind+"-decoded-value-aliases-input", fmt.Sprintf("the %s value decoded at step %d changed when its input buffer was overwritten afterwards", kind, i+1), -1, 0, js)
+			return
+		}
+		if !audit(i, "Decode", js) {
+			return
+		}
+		if fresh.Status == 0 {
+			kept = append(kept, fresh)
+		}
 		c.Count(fmt.Sprintf("reuse:%s:status=%d", kind, dirty.Status))
 		sh, ix := -1, 0
 		if emit {
@@ -711,6 +779,23 @@ func reuseSeq(kind string, seq [][]byte, emit bool) {
 				kind, i+1, len(oldData), len(oldMsgs), dirty.Status, dirty.ID, len(dirty.Data), len(dirty.Msgs), dirty.Rest, fresh.Status, fresh.ID, len(fresh.Data), len(fresh.Msgs), fresh.Rest), sh, ix, js)
 			return
 		}
+	}
+}
+
+// encodePayload runs the Encode of the given type on a value whose payload is p.
+func encodePayload(kind string, p []byte) {
+	var b bin.Buffer
+	switch kind {
+	case "unencrypted":
+		_ = proto.UnencryptedMessage{MessageID: 4, MessageData: p}.Encode(&b)
+	case "result":
+		_ = (&proto.Result{RequestMessageID: 4, Result: p}).Encode(&b)
+	case "gzip":
+		_ = proto.GZIP{Data: p}.Encode(&b)
+	case "message":
+		_ = (&proto.Message{ID: 4, SeqNo: 1, Bytes: len(p), Body: p}).Encode(&b)
+	default:
+		_ = (&proto.MessageContainer{Messages: []proto.Message{{ID: 4, SeqNo: 1, Bytes: len(p), Body: p}}}).Encode(&b)
 	}
 }
 
@@ -815,7 +900,7 @@ func main() {
 				fmt.Println("replay: large gzip payload, regenerate with:", rp.Gen)
 			}
 		case 8:
-			reuseSeq(rp.Kind, rp.Seq, true)
+			reuseSeq(rp.Kind, rp.Seq, true, rp.Ops...)
 			fmt.Printf("replay: %d inputs decoded one after another into one %s value and into fresh values\n", len(rp.Seq), rp.Kind)
 		case 7:
 			if rp.Data != nil {
@@ -1030,6 +1115,8 @@ func main() {
 	// ----- reused (dirty) decode targets: long-then-short, after errors, after mutants -----
 	for _, kind := range []string{"unencrypted", "result", "gzip", "message", "container"} {
 		reuseSeq(kind, [][]byte{encodedFor(r, kind, 40), encodedFor(r, kind, 12), encodedFor(r, kind, 0), encodedFor(r, kind, 64), encodedFor(r, kind, 20)}, true)
+		// earlier values stay alive across later Decode AND Encode calls (pooled buffers)
+		reuseSeq(kind, [][]byte{encodedFor(r, kind, 300), encodedFor(r, kind, 200), r.Bytes(500), encodedFor(r, kind, 100), r.Bytes(50), encodedFor(r, kind, 400)}, false, 0, 0, 1, 0, 1, 0)
 		for i := 0; i < c.N(12, 400); i++ {
 			var seq [][]byte
 			for k := r.Range(2, 6); k > 0; k-- {
@@ -1046,7 +1133,13 @@ func main() {
 				}
 				seq = append(seq, in)
 			}
-			reuseSeq(kind, seq, i%2 == 0)
+			ops := make([]int, len(seq))
+			for k := range ops {
+				if k > 0 && r.Chance(1, 4) {
+					ops[k] = 1
+				}
+			}
+			reuseSeq(kind, seq, i%2 == 0, ops...)
 		}
 	}
 
